@@ -3,6 +3,7 @@
 # Usage: confirm_seed.sh <name> <property> <patch.diff> <demo-dir> <notes.md>
 # Confirms: existing tests pass with the change; demo passes without and fails with it. Then runs the property's check on it.
 NAME=$1; PROP=$2; PATCH=$(readlink -f $3); DEMO=$(readlink -f $4); NOTES=$(readlink -f $5)
+case "$DEMO" in /verif/seeded/*) T=/var/tmp/seedin.$$; rm -rf $T; mkdir -p $T; cp -r "$DEMO" $T/demo; cp "$NOTES" $T/notes.md; cp "$PATCH" $T/patch.diff; DEMO=$T/demo; NOTES=$T/notes.md; PATCH=$T/patch.diff;; esac
 S=/var/tmp/seed.$$; rm -rf $S; mkdir -p $S/verif
 export GOFLAGS=-mod=mod GOPROXY=off GOSUMDB=off GOTOOLCHAIN=local; unset GOWORK
 rsync -a --exclude .git --exclude fc/fc /repo/ $S/repo/
@@ -41,3 +42,4 @@ else
   echo "NOT CONFIRMED — not stored"; tail -5 $S/demo_clean.log; tail -5 $S/base.log; tail -5 $S/demo_mut.log
 fi
 rm -rf $S
+rm -rf /var/tmp/seedin.$$
